@@ -159,7 +159,9 @@ inline UserMesh userMesh(Rng& r, const Manifold& shape, std::string& d) {
   if (g0.NumTri() < 4) return um;
   const int k = (int)r.below(5);
   const int fmode = (int)r.below(3);          // 0 none, 1 own face ID per triangle, 2 coplanar grouping made explicit
-  const bool seam = k > 0 && r.below(3) == 0;  // duplicate the vertices per triangle
+  const int seamMode = k > 0 && r.below(5) < 2 ? 1 + (int)r.below(2) : 0;  // 1: duplicate the vertices per triangle; 2: PARTIAL seams (a corner gets its own property
+                                                                          // vertex with probability 1/2: seams that end at a vertex, edges shared at one end and split at the other)
+  const bool seam = seamMode != 0;
   const int runMode = (int)r.below(4);        // 0 no run info, 1 one reserved ID, 2 two reserved IDs, 3 one ID + AsOriginal later
   const bool nonlinear = k > 0 && r.below(3) == 0;
   double A[4][4]; for (auto& row : A) for (double& x : row) x = sym(r, 2.0);
@@ -184,6 +186,7 @@ inline UserMesh userMesh(Rng& r, const Manifold& shape, std::string& d) {
       for (int i = 0; i < 3; i++) {
         size_t v = g0.triVerts[3 * t + i];
         vec3 p(g0.vertProperties[3 * v], g0.vertProperties[3 * v + 1], g0.vertProperties[3 * v + 2]);
+        if (seamMode == 2 && first[v] >= 0 && r.below(2)) { g.triVerts.push_back((uint64_t)first[v]); continue; }   // share the first property vertex of v
         uint64_t idx = g.vertProperties.size() / g.numProp;
         for (int c = 0; c < 3; c++) g.vertProperties.push_back(p[c]);
         for (int j = 0; j < k; j++) g.vertProperties.push_back(chan(j, p, t));
@@ -200,7 +203,7 @@ inline UserMesh userMesh(Rng& r, const Manifold& shape, std::string& d) {
     if (r.below(2)) g.runIndex.pop_back();  // the importer appends triVerts.size()
   }
   um.g = g; um.valid = true; um.runMode = runMode; um.userFace = fmode != 0; um.affine = !seam && !nonlinear;
-  d += "/mesh(k=" + std::to_string(k) + ",f=" + std::to_string(fmode) + (seam ? ",seam" : "") + (nonlinear ? ",nl" : "") + ",run=" + std::to_string(runMode) + ")";
+  d += "/mesh(k=" + std::to_string(k) + ",f=" + std::to_string(fmode) + (seamMode == 1 ? ",seam" : seamMode == 2 ? ",pseam" : "") + (nonlinear ? ",nl" : "") + ",run=" + std::to_string(runMode) + ")";
   return um;
 }
 
@@ -240,6 +243,9 @@ inline Prog randomProgram(Rng& r, Registry& reg, const GenOpts& o) {
     orig.push_back(m);
   }
   std::vector<Manifold> pool;
+  // anc[i]: which placed instances (bit per instance) pool[i] was built from WITHOUT being moved since: two operands
+  // sharing an instance have exactly coincident surface parts (e.g. r = a + b; r + a), the regime of "(coincident)"
+  std::vector<uint64_t> anc; int nextBit = 0; auto freshBit = [&]() { return 1ull << (nextBit++ % 64); };
   auto inst = [&]() { d += " i" + std::to_string(pool.size()) + "="; size_t k = r.below(orig.size()); d += "o" + std::to_string(k); return randomTransform(r, orig[k], d); };
   pool.push_back(inst()); pool.push_back(inst());
   const int steps = 1 + (int)r.below(5);
@@ -248,19 +254,21 @@ inline Prog randomProgram(Rng& r, Registry& reg, const GenOpts& o) {
   auto sameBox = [](const Manifold& x, const Manifold& y) { Box a = x.BoundingBox(), b = y.BoundingBox(); return !x.IsEmpty() && !y.IsEmpty() && a.min == b.min && a.max == b.max; };
   size_t lastPick = 0;
   auto pick = [&]() -> Manifold { if (r.below(3) == 0) { pool.push_back(inst()); lastPick = pool.size() - 1; return pool.back(); } lastPick = r.below(pool.size()); return pool[lastPick]; };
+  auto A = [&](size_t i) { while (anc.size() < pool.size()) anc.push_back(freshBit()); return anc[i]; };   // instances get their bit lazily
   auto small = [&](const Manifold& m) { return (int)m.NumTri() <= o.maxTri; };
   for (int s = 0; s < steps; s++) {
     int op = (int)r.below(o.smooth ? 12 : 10);
     Manifold a = pick(); const size_t ia = lastPick;
     d += " ;";
+    A(pool.size() - 1); const size_t poolBefore = pool.size(); uint64_t resMask = A(ia); bool moved = false;
     switch (op) {
       // "(self)": both operands are the very same Manifold (exactly coincident surfaces)
-      case 0: case 1: case 2: { Manifold b = pick(); OpType t = (OpType)op; d += t == OpType::Add ? "add" : t == OpType::Subtract ? "sub" : "int"; if (lastPick == ia) d += "(self)"; else if (sameBox(a, b)) d += "(coincident)"; pool.push_back(a.Boolean(b, t)); break; }
-      case 3: { Manifold b = pick(); auto pr = a.Split(b); d += "split"; if (lastPick == ia) d += "(self)"; else if (sameBox(a, b)) d += "(coincident)"; pool.push_back(r.below(2) ? pr.first : pr.second); break; }
+      case 0: case 1: case 2: { Manifold b = pick(); OpType t = (OpType)op; d += t == OpType::Add ? "add" : t == OpType::Subtract ? "sub" : "int"; if (lastPick == ia) d += "(self)"; else if (sameBox(a, b) || (A(ia) & A(lastPick))) d += "(coincident)"; resMask |= A(lastPick); pool.push_back(a.Boolean(b, t)); break; }
+      case 3: { Manifold b = pick(); auto pr = a.Split(b); d += "split"; if (lastPick == ia) d += "(self)"; else if (sameBox(a, b) || (A(ia) & A(lastPick))) d += "(coincident)"; resMask |= A(lastPick); pool.push_back(r.below(2) ? pr.first : pr.second); break; }
       case 4: { auto pr = a.SplitByPlane(vec3(sym(r, 1), sym(r, 1), 0.2 + unit(r)), sym(r, 0.2)); d += "plane"; pool.push_back(r.below(2) ? pr.first : pr.second); registerCutter(reg, pool.back()); break; }
-      case 5: { Manifold b = pick(); size_t ib = lastPick; Manifold c = pick(); size_t ic = lastPick; std::vector<Manifold> v = {a, b, c}; OpType t = (OpType)r.below(3); d += "batch" + std::to_string((int)t); if (ia == ib || ia == ic || ib == ic) d += "(self)"; else if (sameBox(a, b) || sameBox(a, c) || sameBox(b, c)) d += "(coincident)"; pool.push_back(Manifold::BatchBoolean(v, t)); break; }
+      case 5: { Manifold b = pick(); size_t ib = lastPick; Manifold c = pick(); size_t ic = lastPick; std::vector<Manifold> v = {a, b, c}; OpType t = (OpType)r.below(3); d += "batch" + std::to_string((int)t); if (ia == ib || ia == ic || ib == ic) d += "(self)"; else if (sameBox(a, b) || sameBox(a, c) || sameBox(b, c) || (A(ia) & A(ib)) || (A(ia) & A(ic)) || (A(ib) & A(ic))) d += "(coincident)"; resMask |= A(ib) | A(ic); pool.push_back(Manifold::BatchBoolean(v, t)); break; }
       case 6: {  // Compose of pairwise disjoint copies
-        Manifold b = pick(); d += "compose";
+        Manifold b = pick(); d += "compose"; resMask |= freshBit();
         std::vector<Manifold> v = {a, a.Translate(vec3(10, 0, 0)), b.Translate(vec3(0, 12, 0))};
         if (r.below(2)) v.push_back(b.Rotate(0, 0, 90).Translate(vec3(0, 0, 15)));
         pool.push_back(Manifold::Compose(v)); break;
@@ -268,7 +276,7 @@ inline Prog randomProgram(Rng& r, Registry& reg, const GenOpts& o) {
       // "!n3": Refine(n) with n >= 3 somewhere in the history
       case 7: { if (small(a)) { int n = 2 + (int)r.below(3); d += "refine" + std::to_string(n); if (n >= 3) d += "!n3"; pool.push_back(a.Refine(n)); } else { d += "skip"; } break; }
       case 8: { d += "asOriginal"; Manifold b = a.AsOriginal(); if (!b.IsEmpty()) { registerSources(reg, b, false); orig.push_back(b); } pool.push_back(b); break; }
-      case 9: { d += "xform"; pool.push_back(randomTransform(r, a, d)); break; }
+      case 9: { d += "xform"; pool.push_back(randomTransform(r, a, d)); moved = true; break; }
       case 10: { d += "smoothOut"; pool.push_back(a.SmoothOut(30 + 40 * unit(r), 0.3 * unit(r))); P.smoothed = true; break; }
       default: {
         if (o.normals && a.NumProp() == 0) { d += "normals+smoothByNormals"; pool.push_back(a.CalculateNormals(0, 50).SmoothByNormals(0)); P.smoothed = true; }
@@ -276,6 +284,7 @@ inline Prog randomProgram(Rng& r, Registry& reg, const GenOpts& o) {
         break;
       }
     }
+    A(pool.size() - 1); if (pool.size() > poolBefore && !moved) anc[pool.size() - 1] = resMask;   // instances picked on the way keep their own bit
   }
   P.result = pool.back();
   if (P.result.IsEmpty() && pool.size() > 2) for (size_t i = pool.size(); i-- > 0;) if (!pool[i].IsEmpty()) { P.result = pool[i]; d += " (result=v" + std::to_string(i) + ")"; break; }
